@@ -128,7 +128,7 @@ def doctree(ctx):
     quick = ctx.tier == "quick"
     out = {}
     # P-MC: guarded operations preserve WellFormed
-    res = tlc.run(ctx, "DocTree", dt_cfg(4 if quick else 7, True, True), name="DocTree_guarded", coverage=False, timeout=1200, heap="4g")
+    res = tlc.run(ctx, "DocTree", dt_cfg(4 if quick else 6, True, True), name="DocTree_guarded", coverage=False, timeout=1200, heap="4g")
     if not res.ok:
         ctx.machinery("DocTree: WellFormed is not preserved by the guarded operations (%s %s) — a defect of the specification\n%s"
                       % (res.kind, res.name, res.out[-1500:]))
@@ -145,7 +145,7 @@ def doctree(ctx):
         ctx.machinery("non-vacuity: unguarded DocTree did not violate WellFormed (got %s %s)" % (nv.kind, nv.name))
     out["nonvacuity"] = [a for a, _ in nv.trace][-1] if nv.trace else "?"
     # unguarded transitions: the model must predict the real heap after unsafe calls as well
-    un = tlc.run(ctx, "DocTree", dt_cfg(3 if quick else 4, False, True, wf=False), name="DocTree_unguarded", timeout=1500, heap="6g")
+    un = tlc.run(ctx, "DocTree", dt_cfg(3, False, True, wf=False), name="DocTree_unguarded", timeout=1500, heap="6g")
     if not un.ok:
         ctx.machinery("DocTree unguarded run failed: %s %s" % (un.kind, un.name))
     transitions += un.emitted
@@ -162,6 +162,9 @@ def doctree(ctx):
         seen.add(k)
         ctx.violation(k, why, {"transition": tr})
     out["replayed"] = n
+    del transitions
+    res.emitted = un.emitted = []
+    res.out = un.out = ""
     out["states"] = res.distinct + un.distinct
     out["transitions"] = res.generated + un.generated
     return out
@@ -290,11 +293,9 @@ def run(ctx):
                       traces_validated_against_impl=dt["replayed"], rule="DocTree.tla transitions replayed on real AdvancedNode objects")
         ctx.sample({"note": "see replays/C05"})
         return
-    inputs, gen_stats = CT.generate(ctx, scale=0.6 if ctx.tier == "quick" else 0.85)
-    traces = CT.record_all(ctx, inputs)
-    val = CT.validate(ctx, traces, CLAUSES)
-    report(ctx, val)
-    ncorrupt = selftest(ctx, traces, CLAUSES, val)
+    inputs, gen_stats = CT.generate(ctx, scale=0.6 if ctx.tier == "quick" else 0.7)
+    traces, val, ncorrupt = CT.process(ctx, inputs, CLAUSES, lambda v: report(ctx, v),
+                                       selftest=lambda tr, v: selftest(ctx, tr, CLAUSES, v))
     shared.evidence(ctx, inputs, gen_stats, traces, val,
                     "DocTree.tla: %d transitions (guarded + unguarded) replayed on real AdvancedNode objects." % dt["replayed"])
     ctx.set_cover(doctree_states=dt["states"], doctree_transitions=dt["transitions"], doctree_replayed=dt["replayed"],
